@@ -11,7 +11,7 @@ QUANTS_SMALL = {('Optional', 0, 1, True), ('Optional', 0, 1, False), ('Indefinit
                 ('OneOrMore', 1, -1, False), ('Exactly', 2, 2, True), ('AtLeastAtMost', 1, 2, True),
                 ('AtLeast', 2, -1, False), ('AtMost', 0, 2, True), ('Mul', 3, 3, True)}
 QUANTS_TWO = {('Optional', 0, 1, True), ('OneOrMore', 1, -1, False)}
-SPINE_INVARIANTS = ['OkIsWF', 'OutcomeTotal', 'RepeatRule', 'LookbehindRule', 'PrecSafeInv']
+SPINE_INVARIANTS = ['OkIsWF', 'OutcomeTotal', 'RepeatRule', 'LookbehindRule', 'PrecSafeInv', 'InferWrapSafe', 'InferWrapAgree', 'InferRepeatSound']
 SPINE_PROPS = ['EmptyNeutralStep', 'EmptyNegRaises']
 
 ASSUME = ['CPython re executes both the emitted pattern and the reference text (engine quirks cancel)',
@@ -220,8 +220,8 @@ def terms_config(name, terms):
     import json
     from . import randterms as RT
     c = spine_config(name, [(97, 98, 99)], 1, set(), set(), quants=set(), names=())
-    c.update(module='PregexTerms', workers=1, invariants=['AllConsumed'],
-             cfg='SPECIFICATION TSpec\nPOSTCONDITION AllConsumed\nCHECK_DEADLOCK FALSE\n',
+    c.update(module='PregexTerms', workers=1, invariants=['AllConsumed', 'TLayerI'],
+             cfg='SPECIFICATION TSpec\nINVARIANT TLayerI\nPOSTCONDITION AllConsumed\nCHECK_DEADLOCK FALSE\n',
              extra_files={'terms.json': json.dumps([RT.to_json(t) for t in terms])})
     return c
 
@@ -363,7 +363,9 @@ def generic(prop, facets, rule, configs_fn, args_tier=None, seeds=None, mode='rr
            'oracle_calibrated_cases': st.get('calibrated', 0), 'codepoints_swept': swept,
            'layer_I_drift': {'text_compared': st.get('drift:text-compared', 0), 'text_differs': st.get('drift:text-differs', 0),
                              'type_compared': st.get('drift:type-compared', 0), 'type_differs': st.get('drift:type-differs', 0),
-                             'note': 'informational: Emit(v)/TypeOf(v) of spec/PregexImpl.tla against str(p)/_get_type(); never a verdict'},
+                             'infer_compared': st.get('drift:infer-compared', 0), 'infer_differs': st.get('drift:infer-differs', 0),
+                             'infer_differs_on_equal_text': st.get('drift:infer-differs-on-equal-text', 0),
+                             'note': 'informational: Emit(v)/TypeOf(v) of spec/PregexImpl.tla against str(p)/_get_type(), and Infer(Emit(v)) of spec/ImplInfer.tla against _get_type()/_is_repeatable(); never a verdict'},
            'exhaustive': True}
     return report(prop, tier, seed, res.agg.failures, cov, time.time() - t0, ASSUME + list(extra_assume),
                   res.model_violations)
